@@ -8,6 +8,8 @@ import KlogV.Model.Report
 import KlogV.Model.Commands
 import KlogV.Model.JsonView
 import KlogV.Model.Bookmarks
+import KlogV.Model.Styler
+import KlogV.Gen.Themes
 open KlogV
 
 def optStr {α} (f : α → String) : Option α → String
@@ -158,8 +160,17 @@ def bkHistory (toks : List String) : String :=
       | none => (acc.1, acc.2 ++ ["fail"])) ([], [])
   " ".intercalate outs
 
+def stylerOf (theme : String) : Styler :=
+  let rows := Gen.themeTable.filter (fun r => r.1 == theme)
+  { seqs := fun p => match rows.find? (fun r => r.2.1 == p.color && r.2.2.1 == p.underlined && r.2.2.2.1 == p.bold) with
+      | some r => r.2.2.2.2.1.toList
+      | none => [],
+    reset := match rows.head? with | some r => r.2.2.2.2.2.toList | none => [] }
+
 def handle (u : UTab) (args : List String) : String :=
   match args with
+  | ["strip", h] => "ok " ++ hexOrDash (hexOfChars (strip (decodeGo (bytesOfHex h))))
+  | ["styledprint", h, theme] => withRecords h fun rs => "ok " ++ hexOrDash (hexOfChars (styledPrintRecords u (stylerOf theme) rs))
   | ["json", h, pretty, file] =>
     (match toJson u (decodeGo (bytesOfHex file)) (pretty == "1") (parseDoc (bytesOfHex h)) with
      | some js => "ok " ++ hexOrDash (hexOfChars js)
